@@ -310,7 +310,7 @@ func runC06(c *Ctx) {
 		c.Sites["C06-R10#scheme-comparisons"] = n
 	}
 	// ---- R1 wiring
-	c.rule("C06-R1", "TBL/def-use: every server.Route built in cmd/glyph from an *ast.Route sets Middlewares to routeMiddlewares(r) for the same r that produced its Handler; every ast.Route literal in the module keeps .Auth (parsed by parseAuthConfig or copied from the source route)")
+	c.rule("C06-R1", "TBL/def-use: every server.Route built in cmd/glyph from an *ast.Route sets Middlewares to routeMiddlewares(r) for the same r that produced its Handler, and a server.Route that re-registers another route's Handler copies that route's Middlewares; every ast.Route literal in the module keeps .Auth (parsed by parseAuthConfig or copied from the source route)")
 	n := 0
 	for _, fn := range c.srcFuncs(glyphCmd) {
 		eachInstr(fn, func(_ *ssa.BasicBlock, _ int, ins ssa.Instruction) {
@@ -345,6 +345,29 @@ func runC06(c *Ctx) {
 				return false
 			})
 			if src == nil {
+				// a route that re-registers another route's handler (an alias: HEAD for GET, a second path) must carry
+				// that route's middleware chain as well: the dispatcher applies the chain of the route it matched
+				fromRoute := func(v ssa.Value, field string) ssa.Value {
+					var base ssa.Value
+					derivesFrom(v, func(x ssa.Value) bool {
+						if u, ok := x.(*ssa.UnOp); ok && u.Op == token.MUL {
+							if fa, ok := u.X.(*ssa.FieldAddr); ok {
+								if nt, f, ok := fieldOf(fa); ok && nt != nil && nt.Obj().Name() == "Route" && nt.Obj().Pkg() != nil && nt.Obj().Pkg().Path() == serverPath && f == field {
+									base = fa.X
+									return true
+								}
+							}
+						}
+						return false
+					})
+					return base
+				}
+				if hb := fromRoute(h, "Handler"); hb != nil {
+					n++
+					mw := stores["Middlewares"]
+					okAlias := mw != nil && fromRoute(mw, "Middlewares") == hb
+					c.ob("C06-R1", fnKey(fn)+"#aliased-route-carries-the-middlewares", al.Pos(), okAlias, "a server.Route is registered with the Handler of another route but without that route's Middlewares: the dispatcher applies the matched route's own chain, so the alias (HEAD for a GET route, a second path) runs the protected body with no credential check and no rate limit")
+				}
 				return // not built from a declared route (e.g. internal endpoints)
 			}
 			n++
@@ -778,6 +801,51 @@ func runC06(c *Ctx) {
 			e.run()
 			c.floor("C06-R6", 8)
 		}
+	}
+
+	// the failure table is keyed by the client, on every path: a shared or constant key makes one client's failures
+	// lock out another one that holds a valid credential
+	if f := c.fn(serverPkg, "BasicAuthMiddlewareWithConfig"); f != nil {
+		tbl := localVarNamed(f, mapWithElem(serverPath, "authFailureTracker"))
+		n := 0
+		for _, cl := range withAnon(f) {
+			isIP := func(v ssa.Value) bool {
+				call, ok := v.(*ssa.Call)
+				return ok && callName(call) == serverPath+".getClientIP"
+			}
+			eachInstr(cl, func(_ *ssa.BasicBlock, _ int, ins ssa.Instruction) {
+				var m, k ssa.Value
+				switch x := ins.(type) {
+				case *ssa.Lookup:
+					m, k = x.X, x.Index
+				case *ssa.MapUpdate:
+					m, k = x.Map, x.Key
+				default:
+					return
+				}
+				u, ok := m.(*ssa.UnOp)
+				if !ok {
+					return
+				}
+				fv, ok := u.X.(*ssa.FreeVar)
+				if !ok || fv.Name() != tbl {
+					return
+				}
+				// only accesses in closures that see the request (they call getClientIP)
+				sees := false
+				eachInstr(cl, func(_ *ssa.BasicBlock, _ int, x ssa.Instruction) {
+					if v, ok := x.(ssa.Value); ok && isIP(v) {
+						sees = true
+					}
+				})
+				if !sees {
+					return
+				}
+				n++
+				c.ob("C06-R6", fnKey(cl)+"#failure-table-keyed-by-the-client-"+itoa(n), ins.Pos(), derivesFrom(k, isIP) && onlyFrom(k, isIP), "the failure-tracker table is accessed with a key that is not, on every path, the identity of this request's client (a constant or shared key can take its place): failures of other clients count against - and lock out - a client that presents a valid credential")
+			})
+		}
+		c.Sites["C06-R6#failure-table-accesses-in-request-closures"] = n
 	}
 
 	// ---- R7 identity
